@@ -56,8 +56,6 @@ CTORS = [
     dict(id="nig_new", ty="NormalInverseGaussian", fn="new", args=[("alpha", "F"), ("beta", "F")], post="nig_new_post(alpha, beta, r)", stubs=["sqrt_c", "fabs"], timeout=900, **G("src/normal_inverse_gaussian.rs", "NormalInverseGaussian")),
     dict(id="zeta_new", ty="Zeta", fn="new", args=[("s", "F")], post="zeta_new_post(s, r)", stubs=["pow"], **G("src/zeta.rs", "Zeta")),
     dict(id="zipf_new", ty="Zipf", fn="new", args=[("n", "F"), ("s", "F")], post="zipf_new_post(n, s, r)", stubs=["pow", "log"], **G("src/zipf.rs", "Zipf")),
-    dict(id="binomial_new", ty="Binomial", fn="new", args=[("n", "u64"), ("p", "f64")], post="binomial_new_post(n, p, r)", stubs=["pow", "sqrt_c", "floor", "exp"], floats=[None], timeout=900,
-         file="src/binomial.rs", path=[r"^impl Binomial$"]),
 ]
 
 
@@ -115,5 +113,25 @@ def c04_units():
 CHILD_MODULES = {}
 
 
+def plain(hid, mod, prop, target, file, schema, obligation, kind="proof", tier="quick", timeout=600, solver=None, replay=None, bound=None, extra=None, stubs=None):
+    return {"harness": "verif_kani::%s::%s" % (mod, hid), "id": hid, "property": prop, "kind": kind, "tier": tier, "solver": solver,
+            "timeout": timeout, "target": target, "file": file, "contract": obligation, "schema": schema, "replay": replay, "bound": bound,
+            "extra": extra, "stubs": stubs or []}
+
+
+C04_EXTRA = [
+    plain("c04_binomial_new", "c04_extra", ["C04"], "Binomial::new", "src/binomial.rs", [("n", "u64"), ("p", "f64")],
+          "assert!(spec::binomial_new_post(n, p, &r)) + internal f64_to_u64 assertion, all (n, p)", timeout=900, replay={"kind": "ctor", "id": "binomial_new", "float": None}),
+    plain("c04_geometric_new_classification", "c04_extra", ["C04"], "Geometric::new", "src/geometric.rs", [("p", "f64")],
+          "assert!(spec::geometric_new_post(p, &r)), all p; squaring loop cut after one iteration", kind="bounded", extra=["--no-unwinding-checks"],
+          bound="loop `while pi > 0.5` unwound once, no unwinding assertion: Err/Ok classification and the k = 0 paths are complete, loop termination and k <= 63 are not established",
+          replay={"kind": "ctor", "id": "geometric_new", "float": None}),
+    plain("c04_pert_with_mode_f64", "c04_extra", ["C04"], "PertBuilder::with_mode", "src/pert.rs", [("min", "f64"), ("max", "f64"), ("shape", "f64"), ("mode", "f64")],
+          "assert!(spec::pert_with_mode_post(min, max, shape, mode, &r)), all arguments", timeout=900, replay={"kind": "ctor", "id": "pert_with_mode", "float": "f64"}),
+    plain("c04_pert_with_mode_f32", "c04_extra", ["C04"], "PertBuilder::with_mode", "src/pert.rs", [("min", "f32"), ("max", "f32"), ("shape", "f32"), ("mode", "f32")],
+          "assert!(spec::pert_with_mode_post(min, max, shape, mode, &r)), all arguments", tier="thorough", timeout=900, replay={"kind": "ctor", "id": "pert_with_mode", "float": "f32"}),
+]
+
+
 def all_units():
-    return c04_units()
+    return c04_units() + C04_EXTRA
